@@ -8,8 +8,8 @@ import rgrun
 import vlib
 
 META = {
-    "text": "TLC computes, for every pattern of the printer family x option set and every line of a catalogue (all contents of length <= 3 over {a,b,space,e-acute} plus lines with invalid UTF-8), whether the line is selected and the successive matches with their byte offsets (Printer.tla over RegexSem); for multi-line search the successive matches over whole inputs (GrepModelML). From these data the expected records of rg -n -b --column, --vimgrep -b, context output, --json (with and without context) and -U --vimgrep are formed and compared with the real output: line text byte-for-byte, line number, offset, column of the first (resp. each) match, JSON text/bytes (base64 iff invalid UTF-8), submatch start/end/text, begin/match|context*/end structure. A further part runs rg --json on free-form byte files (every class of valid and invalid UTF-8, U+FFFD itself, NUL under -a, lines longer than the buffer, CRLF, no final terminator): the message stream is validated by TLC against GrepModel (GrepJudge), byte fidelity and the text/base64 choice on the decoded messages.",
-    "note": "Patterns bounded by specs/regex/MCPrinter.tla and MCGrepML.tla; symbols abstract bytes; lines with a multi-byte character are not judged for patterns that match the empty string (byte-level empty matches are not modelled); --heading/--null path decoration only lightly covered.",
+    "text": "TLC computes, for every pattern of the printer family x option set and every line of a catalogue (all contents of length <= 3 over {a,b,space,e-acute} plus lines with invalid UTF-8), whether the line is selected and the successive matches with their byte offsets (Printer.tla over RegexSem); for multi-line search the successive matches over whole inputs (GrepModelML). From these data the expected records of rg -n -b --column, --vimgrep -b, context output, --json (with and without context) and -U --vimgrep are formed and compared with the real output: line text byte-for-byte, line number, offset, column of the first (resp. each) match, JSON text/bytes (base64 iff invalid UTF-8), submatch start/end/text, begin/match|context*/end structure. A further part runs rg --json on free-form byte files (every class of valid and invalid UTF-8, U+FFFD itself, NUL under -a, lines longer than the buffer, CRLF, no final terminator): the message stream is validated by TLC against GrepModel (GrepJudge), byte fidelity and the text/base64 choice on the decoded messages. The printers are also driven at library level behind a writer that accepts only part of each buffer (print_lib). The attribution part (specs/cli/Attribution.tla, judged by TLC) runs several files per invocation, some of which fail part-way through a --pre command, under --heading, -H and --json with -j1 / -j2 and checks that every printed line is that line of the file it is shown for and that a file searched without a fault shows exactly its matching lines.",
+    "note": "Patterns bounded by specs/regex/MCPrinter.tla and MCGrepML.tla; symbols abstract bytes; lines with a multi-byte character are not judged for patterns that match the empty string (byte-level empty matches are not modelled); --null path decoration only lightly covered; in the attribution part the failing files are only required to show a prefix of their matching lines.",
     "technique": "TLA+ executable semantics enumerated by TLC, replayed on the rg binary (text and JSON printers)",
 }
 
